@@ -196,6 +196,20 @@ def _gen(rng, fmt, scale=1):
     if fmt == "mei":
         _add_repeats(rng, A, ending_plan)
     _add_ties(rng, A, profile["tie"])
+    if fmt == "mei" and n_staves >= 2 and profile["tie"] == 0.0 and rng.random() < 0.5:
+        # cross-staff writing: @staff on single notes and on some notes of a chord (the others stay on the layer's staff);
+        # "xs" lists [index of the pitch in the event, staff number]
+        for M in A["measures"]:
+            for sn in numbers:
+                for layer in M["staves"][str(sn)]:
+                    for ev in layer["ev"]:
+                        if ev["k"] in ("n", "c") and rng.random() < 0.25:
+                            others = [x for x in numbers if x != sn]
+                            idxs = list(range(len(ev["p"])))
+                            rng.shuffle(idxs)
+                            take = idxs[:rng.randint(1, max(1, len(idxs) - 1))] if ev["k"] == "c" else [0]
+                            ev["xs"] = sorted([i, rng.choice(others)] for i in take)
+        A["cross_staff"] = True
     return A, _options(rng, fmt, A)
 
 
